@@ -350,7 +350,7 @@ fn gen(c: &mut dyn Choices, max: usize) -> (Conv, Vec<Op>) {
 }
 
 /// (appended picks, recorded tapes keep their meaning) one history in eight is long: every next / poll step
-/// becomes a burst of 20..60 (channel / collection growth)
+/// becomes a burst of 20..60, or of 100 / 255..258 / 300 (channel / collection growth, narrow counters)
 fn maybe_long(c: &mut dyn Choices, ops: Vec<Op>) -> Vec<Op> {
   if c.pick(8) != 7 {
     return ops;
@@ -359,7 +359,7 @@ fn maybe_long(c: &mut dyn Choices, ops: Vec<Op>) -> Vec<Op> {
   for op in ops {
     match op {
       Op::Next | Op::Poll => {
-        let k = 20 + c.pick(41);
+        let k = crate::ast::pick_size(c, 20, 41, &[100, 255, 256, 257, 258, 300]);
         out.extend((0..k).map(|_| op.clone()));
       }
       o => out.push(o),
